@@ -734,8 +734,7 @@ def kerning_compaction_levels_keep_pair_values(tier, rnd):
                     data = _compile(font, "GPOS", mode)
                 except Exception as e:
                     r.case((kinds, ext, level, mode, "error"))
-                    kid = KNOWN_EMPTY_CLASS if crash_known and isinstance(e, IndexError) else None
-                    r.fail("compact(level=%d)/compile packer=%r raised %s: %s (subtables %s, hazard %s)" % (level, mode, type(e).__name__, str(e)[:100], kinds, hazard), known_id=kid)
+                    r.fail("compact(level=%d)/compile packer=%r raised %s: %s (subtables %s, hazard %s)" % (level, mode, type(e).__name__, str(e)[:100], kinds, hazard))
                     continue
                 for _ in texts:
                     r.case((kinds, ext, level, mode, nsub))
@@ -745,14 +744,11 @@ def kerning_compaction_levels_keep_pair_values(tier, rnd):
     return r
 
 
-KNOWN_EMPTY_CLASS = "C06-compact-nonzero-record-of-empty-class-IndexError"
-
-
 def _nonzero_record_of_empty_class(font):
-    """Known finding predicate: some PairPos format 2 subtable has a non-zero Class2Record whose
-    first class has no Coverage glyph or whose second class has no glyph listed in ClassDef2 (this
-    includes class 0, 'every other glyph').  compact_class_pairs then builds a pair keyed by an empty
-    glyph tuple and _getClassRanges raises IndexError."""
+    """Some PairPos format 2 subtable has a non-zero Class2Record whose first class has no Coverage
+    glyph or whose second class has no glyph listed in ClassDef2 (this includes class 0, 'every other
+    glyph').  compact_class_pairs used to raise IndexError on these (repaired; a recurrence is a
+    violation like any other exception) - kept as a statistic of how many such tables are exercised."""
     from fontTools.otlLib.optimize.gpos import is_really_zero
 
     for lk in font["GPOS"].table.LookupList.Lookup:
@@ -898,7 +894,7 @@ def corpus_tables_recompiled_by_every_packer_shape_like_the_original(tier, rnd):
             except Exception as e:
                 r.case((name, mode, level))
                 r.fail("%s packer=%r level=%d: compaction/recompiling raised %s: %s" % (name, mode, level, type(e).__name__, str(e)[:120]),
-                       known_id=KNOWN_EMPTY_CLASS if crash_known and isinstance(e, IndexError) else None)
+                       )
                 continue
             key = tuple(new[t] for t in tags)
             for _ in want:
